@@ -63,7 +63,8 @@ Record labgt := mk_labgt {
   g_secure : bool;        (* qname lies under an unbroken signed chain from the anchor *)
   g_untampered : bool;    (* no upstream response on the path was altered in this run *)
   g_expect_rcode : N;     (* rcode the zone data dictates *)
-  g_have_anchor : bool }.
+  g_have_anchor : bool;
+  g_ad_optional : bool }. (* the denial rests on an Opt-Out span: served, but AD must not be expected *)
 Record labobs := mk_labobs {
   b_cd : bool; b_do : bool; b_adreq : bool; b_edns : bool;
   b_rcode : N; b_ad : bool; b_ede : bool;
@@ -162,7 +163,7 @@ Definition check_case (c : case) : bool :=
   | CaseLab g b =>
       (* an untouched secure hierarchy validates: the zone's rcode, and AD for a client that asked for it *)
       if g_untampered g && g_secure g && g_have_anchor g && negb (b_cd b)
-      then (b_rcode b =? g_expect_rcode g) && Bool.eqb (b_ad b) (b_do b || b_adreq b)
+      then (b_rcode b =? g_expect_rcode g) && (if g_ad_optional g then negb (b_ad b) else Bool.eqb (b_ad b) (b_do b || b_adreq b))
       else true
   | CaseClientAD q ad o => Bool.eqb (client_ad q ad) o
   | CaseCacheAD q ad o => Bool.eqb (cache_ad q ad) o
